@@ -49,7 +49,11 @@ def stub_save(self, name):
 
 
 # configurations of the writing: Rst(n_workers=...), how the target directory is given, author / version
-DEFAULT_CFG = {'n_workers': None, 'path': 'str', 'author': 'nobody', 'version': '0'}
+DEFAULT_CFG = {'n_workers': None, 'path': 'str', 'author': 'nobody', 'version': '0', 'history': 'once'}
+# what happens to the Rst / FormattedRst objects around the write that is observed; every directory written
+# in a history must satisfy the whole oracle
+HISTORIES = ['once', 'two-dirs', 'same-dir-twice', 'clean-rewrite', 'format-twice', 'rst-reused-before',
+             'rst-reused-after', 'three-dirs']
 
 
 def gen_cfg(rng):
@@ -59,6 +63,7 @@ def gen_cfg(rng):
     cfg['path'] = rng.choice(['str', 'str', 'Path', 'existing', 'trailing-slash', 'nested-missing'])
     cfg['author'] = rng.choice(['nobody', 'Jean Valjean', "l'auteur {x}", 'é"'])
     cfg['version'] = rng.choice(['0', '1.2.3', '{v}'])
+    cfg['history'] = 'once' if rng.random() < 0.55 else rng.choice(HISTORIES[1:])
     return cfg
 
 
@@ -109,6 +114,11 @@ class Pool:
             for fp, ident in self.plot_id.items():
                 text = text.replace(fp, ident)
         return text
+
+    def other_report(self, TestReport):
+        '''an unrelated report (with results and plots of its own) for histories that reuse an Rst object'''
+        return TestReport(title='Other', content=[
+            self.results[3], TestReport(title='Z', content=[self.results[7], self.results[0]])])
 
     def new_rst(self, n_workers=None):
         return self.Rst(self.rpr.Representation(self.rpr.FullRepresenter()), n_workers=n_workers)
@@ -169,6 +179,27 @@ def gen_tree(rng, max_depth, flaw, pool=None):
         root[2].insert(rng.randrange(len(root[2]) + 1), [rng.choice(vs), results() or [rng.randrange(NPOOL)], []])
         if not root[1]:
             root[1] = [rng.randrange(NPOOL)]
+    elif flaw in ('shared-subreport', 'shared-twice'):
+        # the same TestReport object below two parents (two title chains: two pages), or twice below one
+        # parent (duplicate siblings: refused)
+        def inside(node, acc):
+            acc.append(id(node))
+            for kid in node[2]:
+                inside(kid, acc)
+            return acc
+        if nodes:
+            _, shared = rng.choice(nodes)
+            if len(shared) == 3:
+                shared.append('s1')
+            if flaw == 'shared-twice':
+                parents = [n for n in [root] + [m for _, m in nodes] if any(k is shared for k in n[2])]
+            else:
+                banned = inside(shared, [])
+                parents = [n for n in [root] + [m for _, m in nodes]
+                           if id(n) not in banned and shared[0] not in [k[0] for k in n[2]]]
+            if parents:
+                par = rng.choice(parents)
+                par[2].insert(rng.randrange(len(par[2]) + 1), shared)
     elif flaw == 'static-css':
         sub = [['valjean.css', results(), [[rng.choice(GOOD), results(), []]] if rng.random() < 0.8 else []]]
         root[2] = [k for k in root[2] if k[0] != '.static'] + [['.static', results(), sub]]
@@ -229,6 +260,11 @@ def gen_cases(ctx, pool):
         # distinct results whose tests have the same name: same page, cousin sections
         ['M', [0, 4, 8], [['TRIPOLI-4', [], [leaf('keff', [1, 5])]], ['MCNP', [], [leaf('keff', [9, 1])]]]],
         ['M', [], [leaf('A', [2, 6, 10]), leaf('B', [6, 2])]],
+        # the same TestReport object below two parents / twice below one parent / at two depths
+        ['M', [0], [['A', [], [['S', [1], [leaf('x', [2])], 's1']]], ['B', [3], [['S', [1], [leaf('x', [2])], 's1']]]]],
+        ['M', [0], [['S', [1], [], 's1'], ['A', [], [['S', [1], [], 's1']]]]],
+        ['M', [0], [['S', [1], [], 's1'], ['S', [1], [], 's1']]],
+        ['M', [], [['A', [], [['S', [1], [leaf('x')], 's1'], ['S', [1], [leaf('x')], 's1']]]]],
     ]
     ctx.count('corpus', len(cases))
     nrand = 420 if quick else 6000
@@ -253,6 +289,10 @@ def gen_cases(ctx, pool):
             flaw = 'variant-sibling'
         elif r < 0.56:
             flaw = 'variant-index'
+        elif r < 0.64:
+            flaw = 'shared-subreport'
+        elif r < 0.67:
+            flaw = 'shared-twice'
         cases.append(gen_tree(rng, rng.choice([1, 2, 3, 4, 4, 4]), flaw, pool))
     ctx.count('random', nrand)
     ncorpus = len(cases) - nrand
@@ -271,6 +311,11 @@ def gen_cases(ctx, pool):
     for kind in ('Path', 'existing', 'trailing-slash', 'nested-missing'):
         out.append({'tree': flat(with_plot[:2]), 'cfg': dict(DEFAULT_CFG, path=kind, n_workers=8)})
         out.append({'tree': ['M', [0], [['a/b', [], []]]], 'cfg': dict(DEFAULT_CFG, path=kind)})
+    for hist in HISTORIES[1:]:
+        for nw in (None, 2):
+            out.append({'tree': ['M', [with_plot[0]], [['A', [with_plot[1], without[0]], []]]],
+                        'cfg': dict(DEFAULT_CFG, history=hist, n_workers=nw)})
+        out.append({'tree': ['M', [0], [['A', [1], []], ['A', [2], []]]], 'cfg': dict(DEFAULT_CFG, history=hist)})
     ctx.count('corpus_configurations', len(out) - ncorpus)
     out += [{'tree': tree, 'cfg': gen_cfg(rng)} for tree in cases[ncorpus:]]
     return out
@@ -279,18 +324,27 @@ def gen_cases(ctx, pool):
 # --------------------------------------------------------------------------
 # running the implementation and parsing the directory back
 
-def build_report(TestReport, pool, node):
-    title, res, kids = node
-    content = [pool.results[i] for i in res]
+def build_report(TestReport, pool, node, memo=None):
+    '''a node with a 4th element (a label) is ONE TestReport object wherever the label occurs: the input is
+    then a DAG (the same section object below several parents / twice below one parent)'''
+    memo = {} if memo is None else memo
+    title, res, kids = node[:3]
+    label = node[3] if len(node) > 3 else None
+    if label is not None and label in memo:
+        return memo[label]
+    content = [pool.results[i] for i in res]      # result objects are shared between sections anyway
     # sub-sections and results alternate
-    subs = [build_report(TestReport, pool, kid) for kid in kids]
+    subs = [build_report(TestReport, pool, kid, memo) for kid in kids]
     mixed = []
     while content or subs:
         if content:
             mixed.append(content.pop(0))
         if subs:
             mixed.append(subs.pop(0))
-    return TestReport(title=title, text=f'text of {title!r}', content=mixed)
+    report = TestReport(title=title, text=f'text of {title!r}', content=mixed)
+    if label is not None:
+        memo[label] = report
+    return report
 
 
 def parse_page(text, pool):
@@ -317,32 +371,10 @@ def parse_page(text, pool):
     return anchors, toc, images, lines[0], descr
 
 
-def run_case(tree, wdir, pool, TestReport, cfg=None):
-    from pathlib import Path
-    cfg = cfg or DEFAULT_CFG
-    shutil.rmtree(wdir, ignore_errors=True)
-    os.makedirs(wdir)
-    rep_dir = os.path.join(wdir, 'rep')
-    target = rep_dir
-    if cfg['path'] == 'Path':
-        target = Path(rep_dir)
-    elif cfg['path'] == 'existing':
-        os.makedirs(rep_dir)
-    elif cfg['path'] == 'trailing-slash':
-        target = rep_dir + '/'
-    elif cfg['path'] == 'nested-missing':
-        rep_dir = os.path.join(wdir, 'not', 'yet', 'rep')
-        target = rep_dir
-    obs = {'raised': None}
-    try:
-        report = build_report(TestReport, pool, tree)
-        fmt = pool.new_rst(cfg['n_workers']).format_report(report=report, author=cfg['author'],
-                                                           version=cfg['version'])
-        fmt.write(target)
-    except Exception as exc:     # noqa
-        obs['raised'] = type(exc).__name__
+def observe(base, rep_dir, pool, raised):
+    '''everything found below `base` (the private parent of one target directory), relative to the target'''
     files, pages, figs, others = [], {}, [], []
-    for dirpath, dirnames, filenames in os.walk(wdir):
+    for dirpath, dirnames, filenames in os.walk(base):
         dirnames.sort()
         for fname in sorted(filenames):
             full = os.path.join(dirpath, fname)
@@ -356,8 +388,86 @@ def run_case(tree, wdir, pool, TestReport, cfg=None):
                 figs.append(pool.plot_id.get(fp, 'unknown-' + fp[:8]))
             else:
                 others.append(rel)
-    obs.update(files=files, pages=pages, figs=figs, others=others)
-    return obs
+    return {'raised': raised, 'files': files, 'pages': pages, 'figs': figs, 'others': others}
+
+
+def run_case(tree, wdir, pool, TestReport, cfg=None):
+    '''run one (tree, configuration); returns one observation per directory the history writes'''
+    from pathlib import Path
+    cfg = dict(DEFAULT_CFG, **(cfg or {}))
+    shutil.rmtree(wdir, ignore_errors=True)
+    os.makedirs(wdir)
+
+    def target(k):
+        base = os.path.join(wdir, f'w{k}')
+        os.makedirs(base, exist_ok=True)
+        rep_dir = os.path.join(base, 'rep')
+        tgt = rep_dir
+        if cfg['path'] == 'Path':
+            tgt = Path(rep_dir)
+        elif cfg['path'] == 'existing':
+            os.makedirs(rep_dir, exist_ok=True)
+        elif cfg['path'] == 'trailing-slash':
+            tgt = rep_dir + '/'
+        elif cfg['path'] == 'nested-missing':
+            rep_dir = os.path.join(base, 'not', 'yet', 'rep')
+            tgt = rep_dir
+        return base, rep_dir, tgt
+
+    def write(fmt, k):
+        base, rep_dir, tgt = target(k)
+        raised = None
+        try:
+            fmt.write(tgt)
+        except Exception as exc:     # noqa
+            raised = type(exc).__name__
+        return base, rep_dir, raised
+
+    hist = cfg['history']
+    rst = pool.new_rst(cfg['n_workers'])
+
+    def fmt_of(rep):
+        return rst.format_report(report=rep, author=cfg['author'], version=cfg['version'])
+    try:
+        report = build_report(TestReport, pool, tree)
+        if hist == 'rst-reused-before':
+            fmt_of(pool.other_report(TestReport))
+        fmt = fmt_of(report)
+        first = fmt
+        if hist == 'format-twice':
+            fmt = fmt_of(report)
+        if hist == 'rst-reused-after':
+            fmt_of(pool.other_report(TestReport))
+    except Exception as exc:     # noqa  (format_report refuses: nothing can have been written)
+        base, rep_dir, _ = target(0)
+        return [observe(base, rep_dir, pool, type(exc).__name__)]
+    out = []
+    if hist in ('once', 'rst-reused-before', 'rst-reused-after'):
+        plan = [0]
+    elif hist == 'two-dirs':
+        plan = [0, 1]
+    elif hist == 'three-dirs':
+        plan = [0, 1, 2]
+    elif hist == 'format-twice':
+        plan = [0]
+    else:
+        plan = []
+    for k in plan:
+        base, rep_dir, raised = write(fmt, k)
+        out.append(observe(base, rep_dir, pool, raised))
+    if hist == 'format-twice':        # the object of the first format_report is still good
+        base, rep_dir, raised = write(first, 1)
+        out.append(observe(base, rep_dir, pool, raised))
+    if hist == 'same-dir-twice':
+        write(fmt, 0)
+        base, rep_dir, raised = write(fmt, 0)
+        out.append(observe(base, rep_dir, pool, raised))
+    if hist == 'clean-rewrite':
+        base, rep_dir, raised = write(fmt, 0)
+        shutil.rmtree(base)
+        base, rep_dir, raised = write(fmt, 0)
+        out.append(observe(base, rep_dir, pool, raised))
+    return out
 
 
 # --------------------------------------------------------------------------
@@ -457,7 +567,7 @@ def oracle(ctx, tree, obs, pool, cfg=None):
 # model side
 
 def coq_tree(node, pool):
-    title, res, kids = node
+    title, res, kids = node[:3]
     results = ['(mk_result ' + cn(i) + ' ' + clist([cstr(p) for p in pool.images[i]]) + ')' for i in res]
     return ('(Node ' + cstr(pool.canon(title)) + ' ' + clist(results) + ' '
             + clist([coq_tree(kid, pool) for kid in kids]) + ')')
@@ -506,17 +616,25 @@ def run(ctx):
                 'or rejected; every tree is written under a configuration: Rst(n_workers) None 50% / 1 / 2 / 3 / 8 (the '
                 'multiprocessing branch of write(), with 0, 1, fewer, as many, more plots than workers), target given as '
                 'str / Path / existing directory / with trailing slash / below missing parents, author and version '
-                'strings; distinct by (tree, configuration)')
+                'strings, and a history on the Rst / FormattedRst objects (45%: write to two / three directories, twice to '
+                'the same, clean and rewrite, format_report twice, Rst reused for another report before / after): every '
+                'directory written is checked; 11% of the trees are DAGs (one TestReport object below two parents, or '
+                'twice below one parent); distinct by (tree, configuration)')
     cases = gen_cases(ctx, pool)
     wdir = os.path.join(ctx.wd(), 'c20')
     done = []
     for case in cases:
         tree, cfg = case['tree'], case['cfg']
-        obs = run_case(tree, wdir, pool, TestReport, cfg)
-        oracle(ctx, tree, obs, pool, cfg)
+        all_obs = run_case(tree, wdir, pool, TestReport, cfg)
+        for obs in all_obs:
+            oracle(ctx, tree, obs, pool, cfg)
+            done.append((tree, obs, cfg))
+        ctx.count('directories_observed', len(all_obs))
+        obs = all_obs[-1]
         ctx.case_seen(case, bool(obs['raised']) or len(obs['pages']) >= 3, sample_every=131)
         ctx.count(f'n_workers_{cfg["n_workers"]}')
         ctx.count(f'path_{cfg["path"]}')
+        ctx.count(f'history_{cfg.get("history", "once")}')
         if not obs['raised'] and cfg['n_workers']:
             nfig = len(obs['figs'])
             ctx.count('pool_' + ('no_plot' if nfig == 0 else 'fewer_plots_than_workers' if nfig < cfg['n_workers']
@@ -527,7 +645,6 @@ def run(ctx):
         if not obs['raised']:
             ctx.count('pages_written', len(obs['pages']))
             ctx.count('figures_written', len(obs['figs']))
-        done.append((tree, obs, cfg))
     shutil.rmtree(wdir, ignore_errors=True)
     shard_size = 80
     shards = []
@@ -563,11 +680,13 @@ def replay(ctx, path):
     else:
         tree = case
     wdir = os.path.join(ctx.wd(), 'c20')
-    obs = run_case(tree, wdir, pool, TestReport, cfg)
+    all_obs = run_case(tree, wdir, pool, TestReport, cfg)
     print('cfg:', json.dumps(cfg))
     print('tree:', json.dumps(tree))
-    print('impl:', json.dumps({k: obs[k] for k in ('raised', 'files', 'pages', 'figs', 'others')}))
-    oracle(ctx, tree, obs, pool, cfg)
+    for obs in all_obs:
+        print('impl:', json.dumps({k: obs[k] for k in ('raised', 'files', 'pages', 'figs', 'others')}))
+        oracle(ctx, tree, obs, pool, cfg)
+    obs = all_obs[-1]
     for v in ctx.violations:
         print('oracle:', v[1][:600])
     body = ('Definition c := (' + coq_tree(tree, pool) + ', ' + coq_obs(obs) + ').\n'
